@@ -383,7 +383,13 @@ impl Cmp {
         }
         if t.show_err {
             if let Some(e) = err {
-                if e.as_u64() != Some(0) {
+                if t.maybe_cut {
+                    // a segment may have cut buckets: any upper bound is correct (the counts
+                    // themselves are compared exactly above)
+                    if e.as_u64().is_none() {
+                        self.mis("doc_count_error_upper_bound", format!("expected an unsigned integer, got {e}"));
+                    }
+                } else if e.as_u64() != Some(0) {
                     self.mis("doc_count_error_upper_bound", format!("nothing was cut per segment, expected 0, got {e}"));
                 }
             }
